@@ -301,7 +301,15 @@ func routerAccepts(b []byte) (ok bool) {
 func regRouter() {
 	e := reg[*routerMessageMirror](famMessages, "router/", "run/session")
 	e.mirror = true
-	inner := e.decode
+	// the router decodes into a VALUE of its message struct (CBOR null gives the zero message), so
+	// does the mirror
+	inner := func(b []byte) (any, error) {
+		v, err := serde.UnmarshalCBOR[routerMessageMirror](b)
+		if err != nil {
+			return nil, err
+		}
+		return &v, nil
+	}
 	e.decode = func(b []byte) (any, error) {
 		real := routerAccepts(b)
 		v, err := inner(b)
